@@ -386,6 +386,7 @@ impl Doc {
                             style,
                         });
                         res.payload.push_str(first);
+                        break;
                     } else {
                         res.tokens.push(t);
                         res.payload.push_str(&self.payload[cur..cur + bytes]);
